@@ -16,6 +16,8 @@ def promoted_equal(out_cell, out_kind, in_cell, in_kind):
     """the stored input value after NumPy promotion to the result dtype"""
     if out_kind == in_kind:
         return cell_ident(out_cell, in_cell, in_kind)
+    if out_kind in ("T", "U") and in_kind in ("T", "U"):
+        return cell_ident(out_cell, in_cell, "T")
     if out_kind == "f" and in_kind == "i":
         return out_cell == symx.fp_of_bv(in_cell)
     if out_kind == "f" and in_kind == "b":
@@ -66,12 +68,16 @@ class Reshape(Harness):
         data = frame_of(ctx, "s", names, kinds, n)
         inp = {"data": data, "method": m}
         if m == "rbind":
-            k = choice("n_others", [1, 2]) if self.variant != "one" else 1
+            k = choice("n_others", [1, 2]) if self.variant not in ("one", "mixedstr") else 1
             others = []
             for j in range(k):
                 on = list(choice(f"ocols{j}", [("a",), ("b", "a"), ("c",), ("b", "c"), ("a", "b", "c")]))
                 nn = choice(f"on{j}", range(self.maxn + 1))
-                others.append(frame_of(ctx, f"o{j}", on, kinds, nn))
+                okinds = kinds
+                if self.variant == "mixedstr":
+                    # the same column as a fixed-width <U array in one frame and a variable-width string in another
+                    okinds = {k: {"U": "T", "T": "U"}.get(v, v) for k, v in kinds.items()}
+                others.append(frame_of(ctx, f"o{j}", on, okinds, nn))
             inp["others"] = others
         elif m in ("cbind", "update"):
             on = list(choice("ocols", [("a",), ("b", "a"), ("c",), ("c", "b")]))
@@ -85,8 +91,10 @@ class Reshape(Harness):
             for nm in choice("targets", [("a",), ("z",), ("b", "z"), ("z", "a")]):
                 if nm != "z" and nm not in names: nm = names[0]
                 k = kinds.get(nm, "f")
-                how = choice(f"how_{nm}", ["scalar", "vector", "callable"] if n >= 1 else ["vector", "callable"])
-                if how == "scalar" and k == "O":
+                how = choice(f"how_{nm}", (["scalar", "vector", "callable"] if n >= 1 else ["vector", "callable"]) + ["existing", "existing_view"])
+                if how in ("existing", "existing_view"):
+                    vals.append([nm, how, names[-1]])          # a callable that returns a column of the frame (or a view of it)
+                elif how == "scalar" and k == "O":
                     vals.append([nm, how, symx.SymPyInt(symx.sym_i64(f"v{nm}"))])        # an object column of Python ints: a Python int
                 elif how == "scalar":
                     c = sym_cell(k, f"v{nm}")
@@ -142,6 +150,8 @@ class Reshape(Harness):
                 ik = kind_of(ref)
                 absent = any(nm not in f.cols for f in frames)
                 wantk = NA_KIND[ik] if absent else ik
+                kk = {kind_of(f.cols[nm]) for f in frames if nm in f.cols}
+                if kk == {"T", "U"}: wantk = "T"          # fixed-width and variable-width strings together: variable width
                 # a 0-row operand still takes part in NumPy's dtype promotion
                 cl.append((f"{nm}: result dtype able to hold the values{' and missing values' if absent else ''}",
                            T(oc.dtype == KIND_DTYPE[wantk])))
@@ -152,7 +162,7 @@ class Reshape(Harness):
                     for r in range(sz):
                         if nm in f.cols:
                             cl.append((f"{nm}: operand row recoverable at offset {off + r}",
-                                       promoted_equal(oc.cells[off + r], ok, f.cols[nm].cells[r], ik)))
+                                       promoted_equal(oc.cells[off + r], ok, f.cols[nm].cells[r], kind_of(f.cols[nm]))))
                         else:
                             cl.append((f"{nm}: missing value where the operand lacks the column (row {off + r})",
                                        obj_isna(oc.cells[off + r]) if ok == "O" else isna(oc.cells[off + r], ok)))
@@ -198,6 +208,8 @@ class Reshape(Harness):
                         if len(oc) == n and oc.dtype == KIND_DTYPE[k]:
                             for r in range(n):
                                 cl.append((f"{nm}: scalar value at row {r}", cell_ident(oc.cells[r], vc, k)))
+                    elif how in ("existing", "existing_view"):
+                        same_col(oc, data.cols[v], f"{nm} (= {v} of the receiver)")
                     else:
                         same_col(oc, v, nm)
                 else:
@@ -227,10 +239,12 @@ def harnesses(tier):
             hs.append(Reshape(m, ["f", "i", "T"], 2, "one" if m == "rbind" else ""))
         hs.append(Reshape("rbind", ["b", "f", "i"], 1, "one"))
         hs.append(Reshape("rbind", ["td", "us", "T"], 1, "one"))
+        hs.append(Reshape("rbind", ["U", "f", "T"], 1, "mixedstr"))
         hs.append(Reshape("update", ["td", "f", "i"], 2))
     else:
         for kinds in (["f", "i", "T"], ["b", "D", "U"], ["i", "O", "us"], ["td", "f", "T"]):
             for m in ("rbind", "cbind", "update", "modify", "select", "unselect", "rename", "colnames"):
                 hs.append(Reshape(m, kinds, 2))
         hs.append(Reshape("rbind", ["f", "i", "b"], 3, "one"))
+        hs.append(Reshape("rbind", ["U", "f", "T"], 2, "mixedstr")); hs.append(Reshape("rbind", ["T", "U", "i"], 2, "mixedstr"))
     return hs
